@@ -81,6 +81,34 @@ def _exact(v):
     return None
 
 
+def _float_exact(s, sigma):
+    """every intermediate value of the subtree is a binary fraction that fits a double (numerator
+    of at most 53 bits, power-of-two denominator), so that IEEE arithmetic computes exactly what
+    the rational oracle computes: only then is "the divisor is zero" a fact about the
+    implementation's own floating-point evaluation and not just about the mathematics
+    (1 + (11 / y - 3x) * y is 0 at some points, but not after 11 / y has been rounded)"""
+    if s is None:
+        return True
+    try:
+        v = X.ev(s, sigma)
+    except X.Undef:
+        return False
+    if v.approx or getattr(v, "ill", False):
+        return False
+    f = v.v
+    d = f.denominator
+    if d & (d - 1) or abs(f.numerator).bit_length() > 53 or d.bit_length() > 900:
+        return False
+    if s[0] == "Power":
+        try:
+            b, e = X.ev(s[2], sigma), X.ev(s[3], sigma)
+        except X.Undef:
+            return False
+        if b.v.denominator != 1 or e.v.denominator != 1 or e.v < 0:
+            return False
+    return _float_exact(s[2], sigma) and _float_exact(s[3], sigma)
+
+
 def _first_div0_transparent(sh, sigma):
     """True iff evaluating hits a division by zero and every node above the first such
     division is NaN-transparent (+ - * / negate), and everything else is defined."""
@@ -99,6 +127,8 @@ def _first_div0_transparent(sh, sigma):
         if any(r[0] == "nan" for r in rs):
             return ("nan",) if k in NAN_TRANSPARENT else ("undef",)
         if k == "Divide" and rs[1][1].v == 0:
+            if not _float_exact(s[3], sigma):
+                return ("undef",)   # zero only mathematically: rounding decides what the code sees
             return ("nan",)
         try:
             return ("val", X.ev(s, sigma))
